@@ -84,7 +84,16 @@ func (e *Env) Stop() error {
 }
 
 // ConnOf recovers the transport connection from a callback context.
-func ConnOf(ctx context.Context) *tr.Conn { return tr.FromAddr(wire.RemoteAddress(ctx)) }
+func ConnOf(ctx context.Context) *tr.Conn {
+	if c, ok := ctx.Value(ConnKey{}).(*tr.Conn); ok {
+		return c
+	}
+	return tr.FromAddr(wire.RemoteAddress(ctx))
+}
+
+// ConnKey carries the transport connection in contexts that a scripted middleware has detached
+// from the library's own context (a middleware that builds its result on context.Background()).
+type ConnKey struct{}
 
 // ---- decorated error specifications ------------------------------------------
 
